@@ -159,7 +159,41 @@ func encodeCommand(args [][]byte) []byte {
 // commands whose reply order comes out of a Go map: pairs are sorted before comparison
 var pairSorted = map[string]int{"HGETALL": 0, "HSCAN": 2} // index of the token where the pair list header sits
 
+// infoTail cuts INFO's text down to what is compared with the model: the `# Keyspace` section up to the
+// average TTL (everything before it - process id, memory, clients - varies from run to run and must only
+// have the expected section structure; the average TTL depends on the server's own reading of the clock)
+func infoTail(text string) string {
+	i := strings.Index(text, "# Keyspace\r\n")
+	if i < 0 || !strings.HasPrefix(text, "# Server\r\n") || !strings.Contains(text[:i], "\r\n# Memory\r\n") || !strings.Contains(text[:i], "\r\n# Client\r\n") {
+		return "!INFO-SHAPE " + text
+	}
+	tail := text[i:]
+	if j := strings.Index(tail, ",avg_ttl="); j >= 0 {
+		tail = tail[:j]
+	}
+	return tail
+}
+
+// clientAddr replaces the peer address of CLIENT LIST by `?`
+func clientAddr(text string) string {
+	i := strings.Index(text, " addr=")
+	if i < 0 {
+		return text
+	}
+	j := strings.Index(text[i+6:], " ")
+	if j < 0 {
+		return text
+	}
+	return text[:i+6] + "?" + text[i+6+j:]
+}
+
 func canonical(name string, toks []tok) []string {
+	if name == "INFO" && len(toks) == 1 && toks[0].kind == '$' {
+		toks = []tok{{kind: '$', text: infoTail(toks[0].text)}}
+	}
+	if name == "CLIENT" && len(toks) == 1 && toks[0].kind == '+' {
+		toks = []tok{{kind: '+', text: clientAddr(toks[0].text)}}
+	}
 	out := make([]string, len(toks))
 	for i, t := range toks {
 		out[i] = t.String()
@@ -282,7 +316,8 @@ func (st *state) respOp(toks []string) (string, string) {
 	return strings.Join(canonical(name, got), " "), annot
 }
 
-var relationalResp = map[string]bool{"SPOP": true, "SRANDMEMBER": true, "RANDOMKEY": true}
+var relationalResp = map[string]bool{"SPOP": true, "SRANDMEMBER": true, "RANDOMKEY": true,
+	"GEOPOS": true, "GEODIST": true, "GEORADIUS": true, "GEORADIUSBYMEMBER": true}
 
 func errKind(err error) string {
 	if ne, ok := err.(net.Error); ok && ne.Timeout() {
